@@ -55,6 +55,7 @@ type mainMonitor struct {
 	tainted map[string]bool   // decisions opened under another key list (outside the property's statement)
 	// C19: cash book of the contract account
 	selfGas int64
+	paid    map[string]int   // cheque id -> payouts the Alphabet approved (reference)
 	block   map[string]int64 // GAS deltas of the current block according to the Transfer notifications
 	loose   map[string]bool  // candidates whose removal was being decided while the key list changed
 	single  bool             // the current block holds one transaction (the previous state is its pre-state)
@@ -62,7 +63,7 @@ type mainMonitor struct {
 
 func newMainMonitor(w *mainWorld) *mainMonitor {
 	m := &mainMonitor{w: w, cfg: map[string]string{}, cands: map[string]bool{}, open: map[string]*tally{},
-		tainted: map[string]bool{}, block: map[string]int64{}, loose: map[string]bool{}}
+		tainted: map[string]bool{}, block: map[string]int64{}, loose: map[string]bool{}, paid: map[string]int{}}
 	for _, k := range w.prev.keys {
 		m.keys = append(m.keys, hx.Hex(k))
 	}
@@ -323,6 +324,11 @@ func (m *mainMonitor) observe(line string, pos []string, h int64, res chainx.Res
 	// ---------------- C17 (vote mode) and the Alphabet-only effects
 	voted := method == "cheque" || method == "setcfg" || method == "aupd" || method == "candrm"
 	fired := false
+	// the reference decision, kept independently of what the implementation did: `approved` = the Alphabet
+	// approves the action in THIS invocation (vote mode: this vote brings the reference tally of the id to the
+	// threshold; a decision that was approved is closed, a later vote for the same id opens a new tally that needs
+	// the threshold again). `judged` = the reference can decide (not a ballot opened under another key list).
+	approved, judged := false, false
 	if voted {
 		evName := map[string]string{"cheque": "Cheque", "setcfg": "SetConfig", "aupd": "AlphabetUpdate"}[method]
 		var id string
@@ -356,6 +362,7 @@ func (m *mainMonitor) observe(line string, pos []string, h int64, res chainx.Res
 			inv := m.invoker(sig)
 			authorised = inv != ""
 			if inv == "" {
+				judged = true // nobody approved anything
 				if res.Halt {
 					v("C17", "stranger-accepted", "invocation without the witness of a stored Alphabet key was not rejected")
 				}
@@ -393,8 +400,13 @@ func (m *mainMonitor) observe(line string, pos []string, h int64, res chainx.Res
 						v("C17", "not-fired-at-threshold", fmt.Sprintf("decision %s not executed although %d distinct live votes were reached", id, len(t.voters)))
 					}
 				}
-				if fired || expectFire {
-					delete(m.open, id)
+				if m.tainted[id] {
+					approved = fired // outside the property's statement: follow the implementation
+				} else {
+					approved, judged = expectFire, true
+				}
+				if approved {
+					delete(m.open, id) // an approved decision is closed
 					delete(m.tainted, id)
 				}
 			}
@@ -406,21 +418,38 @@ func (m *mainMonitor) observe(line string, pos []string, h int64, res chainx.Res
 			authorised = m.w.act.witnessed(sig, addr) && addr != uint160(nil)
 			if res.Halt {
 				fired = true
+				approved, judged = authorised, true
 				if !authorised {
 					v("C17", "stranger-accepted", "Alphabet-only method executed without the Alphabet multisignature")
 				}
 			}
 		}
-		_ = authorised
-		if res.Halt && fired {
-			switch method {
-			case "cheque":
-				amt, _ := i64(args[2])
+		if method == "cheque" && res.Halt {
+			// C19: "pays out exactly the cheque amount once the Alphabet approves": the payout follows the reference
+			// decision, not the implementation's own bookkeeping
+			amt, _ := i64(args[2])
+			if judged && fired && !approved {
+				what := "cheque-paid-without-approval"
+				if m.paid[id] > 0 {
+					what = "cheque-paid-twice"
+				}
+				v("C19", what, fmt.Sprintf("cheque %s paid %d to %s although the Alphabet's votes for this id have not reached the threshold (again); approved payouts of this id so far: %d",
+					id, amt, m.tok(args[1]), m.paid[id]))
+			}
+			if judged && approved && !fired {
+				v("C19", "approved-cheque-not-paid", fmt.Sprintf("cheque %s reached the threshold and was not paid", id))
+			}
+			if approved {
+				m.paid[id]++
 				exp("@self", m.tok(args[1]), amt)
 				want := fmt.Sprintf("Cheque(%s,%s,%d,%s)", m.tok(args[0]), m.tok(args[1]), amt, m.tok(args[3]))
-				if !contains(evs, want) {
+				if fired && !contains(evs, want) {
 					v("C19", "cheque-misreported", "want "+want)
 				}
+			}
+		}
+		if res.Halt && fired {
+			switch method {
 			case "setcfg":
 				m.cfg[hx.Hex(m.w.act.val(args[1]))] = hx.Hex(m.w.act.val(args[2]))
 			case "aupd":
@@ -472,7 +501,8 @@ func (m *mainMonitor) checkState(site string, prev, st mainState) {
 		}
 	}
 	if st.gas[0] != m.selfGas {
-		v("C19", "ledger-identity", fmt.Sprintf("contract holds %d GAS, received minus cheques paid is %d", st.gas[0], m.selfGas))
+		v("C19", "ledger-identity", fmt.Sprintf("contract holds %d GAS, everything received minus the cheques the Alphabet approved is %d", st.gas[0], m.selfGas))
+		m.selfGas = st.gas[0] // reported; go on from the observed balance so that a further divergence is reported anew
 	}
 	// C17: the stored decisions are exactly the executed ones
 	var ks []string
